@@ -6,6 +6,7 @@ mod exec;
 mod expand;
 mod front;
 mod ir;
+mod mutser;
 mod shape;
 mod showser;
 mod syntaxs;
@@ -34,6 +35,7 @@ fn main()
 		"exec-tools" => exec::stream(&args[2], true, true, false),
 		"tools" => exec::stream(&args[2], false, true, false),
 		"tools-wasm" => exec::stream(&args[2], false, true, true),
+		"typed" => mutser::stream(&args[2]),
 		"ir" => ir::stream(&args[2], false),
 		"ir-wasm" => ir::stream(&args[2], true),
 		other =>
